@@ -19,8 +19,10 @@ func init() {
 			"(R2) exhaustive decision tables of Unpack16/32/64 over representatives of binary.Uvarint's result (value around the width limit x count <0/0/>0): error exactly for overflow, empty input and too-large values, otherwise the decoded value with Uvarint's count; Pack buffers hold ceil(bits/7) bytes and Pack8's two forms; " +
 			"(R3) EncodedSize equals ceil(bitlength/7) at every 7-bit boundary (finite-valuation propagation over boundary representatives); " +
 			"(R4) GetNextBlock bounds the decoded length in the unsigned domain, with the prefix length accounted for, before it is converted, and returns data[n:n+l] with count n+l; PrependLength prefixes len(data). " +
+			"(R5) narrowing integer conversions in package varint happen only after a range test of the value. " +
 			"NOT decided: value exactness of encoding/binary itself, inverse property for all values (arithmetic).",
-		Rules: []ruleFn{c10R1, c10R2, c10R3, c10R4},
+		Rules: []ruleFn{c10R1, c10R2, c10R3, c10R4,
+			func(c *Ctx, r *Report) { narrowingRule(c, r, "C10-R5", []string{"formats/varint"}, map[string]string{}) }},
 	})
 }
 
